@@ -50,6 +50,10 @@ Proof. vm_compute. reflexivity. Qed.
 
 Lemma eq_sees_members : eq_sees_all_members Gen_Members.eq_excluded Gen_Members.M = true.
 Proof. vm_compute. reflexivity. Qed.
+
+(* add() has the parameters the model gives it: (self, obj=None, hint=None, force=False, validate=True, **kwargs) *)
+Lemma add_signature_ok : sig_eqb Gen_Members.add_signature modelled_add_signature = true.
+Proof. vm_compute. reflexivity. Qed.
 """
 
 WRONG = "no_such_member_xyz"
@@ -365,6 +369,8 @@ def predicate(ck, sv, mir, case, res, enabled):
         inp = {"parent": case["parent"], "enabled": enabled, "earlier_calls": case["calls"][:j], "call": call}
 
         def bad(key, what, expected=None):
+            if call.get("conv", "kw") != "kw":
+                what += " [add() called with hint/force %s]" % ("positionally" if call["conv"] == "pos" else "as keyword " + call["conv"].split(":", 1)[1])
             ck.witness(key, what, input=inp, expected=expected,
                        observed={k: r.get(k) for k in ("code", "exc", "changed", "warn", "holds_child", "ret_is_child")})
 
@@ -392,6 +398,8 @@ def predicate(ck, sv, mir, case, res, enabled):
         ck.tally("call:%s:%s" % ("no-member" if not S else ("unique" if len(S) == 1 else "several"),
                                  "raises" if code not in (0, 20) else "returns"))
         if call.get("mark", "").startswith("matrix:"):
+            ck.tally("convention:" + call.get("conv", "kw"))
+        if call.get("mark", "").startswith("matrix:") and call.get("conv", "kw") == "kw":
             ck.tally("%s:%s:hint=%s" % (call["mark"], "unique" if len(S) == 1 else "several" if S else "none",
                                         "candidate" if hint in S else repr(hint) if hint in (None, "") else "wrong"))
         if factory_failed:
@@ -475,11 +483,28 @@ def run_cases(ck, T, cases, label):
     parts = [cases[i:i + chunk] for i in range(0, len(cases), chunk)]
 
     def one(part):
-        return ck.impl("c10_impl.py", {"order": order, "cases": part}, timeout=1500)["results"]
+        return ck.impl("c10_impl.py", {"order": order, "cases": part}, timeout=1500)
     with ThreadPoolExecutor(max_workers=6) as ex:
         for part, res in zip(parts, ex.map(one, parts)):
-            out.extend(zip(part, res))
+            out.extend(zip(part, res["results"]))
+            check_class_attrs(ck, res.get("new_class_attrs") or {}, {"first_parent": part[0]["parent"]["cls"] if part else None})
     return out
+
+
+ALLOWED_CLASS_ATTRS = ("_GeneratedsSuperSuper__all_members_", "_GeneratedsSuperSuper__nml_hier")
+
+
+def check_class_attrs(ck, new, where):
+    """no class-level attribute other than the two caches the model knows may appear on a binding class at run time"""
+    bad = {c: [a for a in attrs if a not in ALLOWED_CLASS_ATTRS] for c, attrs in new.items()}
+    bad = {c: a for c, a in bad.items() if a}
+    ck.tally("class-attribute-snapshots")
+    if bad:
+        c = sorted(bad)[0]
+        ck.witness("%s:class-attribute-appears-at-run-time" % ck.pid,
+                   "running the calls created class-level attribute(s) %s on %s (and %d more classes): state shared by all "
+                   "components of the class and, through inheritance, of derived classes" % (bad[c], c, len(bad) - 1),
+                   input=where, expected=[], observed={k: bad[k] for k in sorted(bad)[:6]})
 
 
 def coq_diff(ck, pairs, label, fixed=True):
@@ -535,6 +560,16 @@ def eq_translate(ck, oblige):
     return d
 
 
+def supersig_translate(ck):
+    p = subprocess.run([PY, os.path.join(VERIF, "translators", "tr_supersig.py")], capture_output=True, text=True, env=impl_env(), timeout=300)
+    try:
+        d = json.loads(p.stdout.strip().splitlines()[-1])
+    except Exception:  # noqa
+        d = {"signatures": {}, "class_attrs": [], "errors": ["tr_supersig failed: " + p.stderr[-500:]]}
+    ck.oblige("translate:tr_supersig", not d["errors"], "; ".join(d["errors"][:10]), kind="translate")
+    return d
+
+
 def build_tables(ck, with_eq=False):
     tab = bindings.translate(ck)
     if tab is None:
@@ -542,7 +577,9 @@ def build_tables(ck, with_eq=False):
     if not bindings.gen_bindings(ck, tab):
         return None
     eq = eq_translate(ck, with_eq)
-    if not supergen.gen_members(ck, tab, [] if eq["errors"] else eq["excluded"]):
+    sig = supersig_translate(ck)
+    ck.supersig = sig
+    if not supergen.gen_members(ck, tab, [] if eq["errors"] else eq["excluded"], sig):
         return None
     S = schema_translate(ck)
     if S is None:
@@ -583,6 +620,17 @@ def run(ck):
     thorough = ck.tier == "thorough"
     cases = [json.loads(json.dumps(c)) for c in STORED]
     fixed_matrix = matrix_cases(T, mir)
+    # every calling convention the signature on the tree under test allows: keywords as modelled, positional, and - when the
+    # signature differs from the modelled one (Inst_C10.add_signature_ok then fails) - force under each other parameter name
+    sig = (getattr(ck, "supersig", None) or {}).get("signatures", {}).get("add", [])
+    convs = ["pos"] + ["alias:" + n for n, _ in sig if n not in ("self", "obj", "hint", "force", "validate") and not n.startswith("*")
+                       and not n.endswith("=")] + ["alias:" + n[:-1] for n, _ in sig if n.endswith("=")]
+    ck.extra["add_calling_conventions"] = ["kw"] + convs
+    for cv in convs:
+        for case in matrix_cases(T, mir):
+            for c_ in case["calls"]:
+                c_["conv"] = cv
+            fixed_matrix.append(case)
     cases.extend(fixed_matrix)
     ck.extra["fixed_matrix_histories"] = len(fixed_matrix)
     ck.extra["fixed_matrix_calls"] = sum(len(c_["calls"]) for c_ in fixed_matrix)
